@@ -178,7 +178,21 @@ fn run_sequence(run: &Run, l: &mut Local, fam: &str, i: u64, ops: &[Op]) {
     }
     // ---- the built scheme against the model
     let scheme: Scheme = b.build();
-    let problems = guard(|| check_scheme(&scheme, &m));
+    // long histories: every name that was ever offered is looked up, with its one-segment
+    // extension and its proper prefix (short histories use the fixed colliding pool)
+    let mut extra: Vec<String> = Vec::new();
+    if ops.len() > 20 {
+        for op in ops {
+            if let Op::Field(n, _) | Op::OptField(n, _) | Op::Function(n) = op {
+                if !extra.contains(n) {
+                    extra.push(n.clone());
+                    extra.push(format!("{}.q", n));
+                    extra.push(n[..n.len() - 1].to_string());
+                }
+            }
+        }
+    }
+    let problems = guard(|| check_scheme(&scheme, &m, &extra));
     match problems {
         Ok(ps) => {
             for (what, detail) in ps {
@@ -201,7 +215,7 @@ fn run_sequence(run: &Run, l: &mut Local, fam: &str, i: u64, ops: &[Op]) {
     }
 }
 
-fn check_scheme(s: &Scheme, m: &Model) -> Vec<(String, serde_json::Value)> {
+fn check_scheme(s: &Scheme, m: &Model, extra_names: &[String]) -> Vec<(String, serde_json::Value)> {
     let mut out = Vec::new();
     let mut bad = |w: &str, d: serde_json::Value| out.push((w.to_string(), d));
     if s.field_count() != m.fields.len() {
@@ -242,7 +256,7 @@ fn check_scheme(s: &Scheme, m: &Model) -> Vec<(String, serde_json::Value)> {
             bad("get_list", json!({"type": t.short(), "got": format!("{:?}", got)}));
         }
     }
-    for n in lookup_names() {
+    for n in lookup_names().into_iter().chain(extra_names.iter().cloned()) {
         let kind = m.kind(&n);
         // lookups by exact name only
         let gf = s.get_field(&n).ok().map(|f| (f.name().to_string(), RType::from_engine(f.get_type()), f.optional()));
@@ -334,6 +348,40 @@ pub fn run(run: &Run) {
         let ops: Vec<Op> = (0..len).map(|_| wide[r.below(wide.len())].clone()).collect();
         run_sequence(run, l, "random", i, &ops);
         run.distinct(crate::report::hash_str(&format!("{:?}", ops)));
+    });
+
+    // ---- wide registries: 40..400 registrations (fields, optional fields, functions in
+    // random interleaving, some names offered twice); index- and size-dependent behaviour
+    // (tables keyed on an index above 63/255, rehashing) is out of reach of 6-step histories
+    let nw = run.opts.size(300, 6_000);
+    run.parallel("wide", nw, |i, l| {
+        let mut r = Rng::derive(seed, "c16-wide", i);
+        let len = [40usize, 63, 64, 65, 66, 100, 128, 129, 130, 200, 256, 257, 300, 400][(i as usize) % 14];
+        let types = [RType::Int, RType::Bytes, RType::Bool, RType::Ip, RType::arr(RType::Int), RType::map(RType::Bytes)];
+        let mut ops: Vec<Op> = Vec::with_capacity(len + 2);
+        for k in 0..len {
+            // one name in eight repeats an earlier one (must be refused, whatever its kind)
+            let id = if k > 0 && r.chance(1, 8) { r.below(k) } else { k };
+            let name = match id % 3 {
+                0 => format!("w{}", id),
+                1 => format!("w{}.sub", id),
+                _ => format!("w.deep.n{}", id),
+            };
+            let t = types[r.below(types.len())].clone();
+            ops.push(match r.below(5) {
+                0 | 1 => Op::Field(name, t),
+                2 => Op::OptField(name, t),
+                _ => Op::Function(name),
+            });
+        }
+        ops.push(Op::List(RType::Int, true));
+        ops.push(Op::List(RType::Int, false));
+        run_sequence(run, l, "wide", i, &ops);
+        l.count("wide_registries");
+        run.distinct(crate::report::hash_str(&format!("{:?}", ops)));
+        if i % 97 == 0 {
+            run.sample("wide", 2, || json!({"registrations": len, "first": format!("{:?}", &ops[..3])}));
+        }
     });
 
     // two identical builds are different schemes; contexts/filters are bound to one
